@@ -80,6 +80,29 @@ var runeMaps = map[string][]valueMap{
 			return x
 		}},
 	},
+	"tuPrefix": {
+		{name: "id", rune: func(x int) int { return x }}, // fi fj tj tk
+		{name: "astral-prefix-lowbyte", rune: func(x int) int { // leading runes astral, last runes FF 100 101
+			switch x {
+			case 102:
+				return 0x1f600
+			case 116:
+				return 0x1f601
+			case 105, 106, 107:
+				return x - 105 + 0xff
+			case 255:
+				return 0x2ff
+			}
+			return x
+		}},
+		{name: "astral-last", rune: func(x int) int { // last runes 1FFFE 1FFFF 20000
+			switch x {
+			case 105, 106, 107:
+				return x - 105 + 0x1fffe
+			}
+			return x
+		}},
+	},
 	"rect": {
 		{name: "id", rune: func(x int) int { return x }},
 		{name: "astral", rune: func(x int) int { return x + 0x1f600 }},
